@@ -123,7 +123,7 @@ Proof.
   induction files as [|f files IH]; intros startNr endNr nr dsd acc segs dsd' endNr' H0 Hlen Hnr Hacc Hc H.
   - cbn in H. inversion H; subst. exact Hc.
   - rewrite lenZ_cons in Hlen. pose proof (lenZ_nonneg files) as Hl.
-    cbn [number_loop] in H. destruct f as [| |o]; [inversion H; subst; exact Hc|discriminate|].
+    cbn [number_loop] in H. destruct f as [| | |o]; [inversion H; subst; exact Hc|discriminate|discriminate|].
     set (p := match thumb with None => read_mp4 dsd o nr | Some dur => (read_thumb nr startNr dur, dsd) end) in H.
     destruct p as [sg dsd1].
     assert (Hacc1 : exists acc1,
@@ -184,50 +184,54 @@ Fixpoint visits (es : list sentry) (t : Z) : list Z :=
   end.
 
 (** The files' own rows: every observation read with [read_mp4], the default sample duration threaded. *)
-Fixpoint file_table (obs : list fobs) (dsd : Z) : option (list cseg * Z) :=
+Fixpoint file_table (obs : list fobs) (dsd : Z) : res (list cseg * Z) :=
   match obs with
-  | [] => Some ([], dsd)
+  | [] => Ok ([], dsd)
   | FSeg o :: rest =>
     let '(sg, dsd') := read_mp4 dsd o 0 in
-    match file_table rest dsd' with Some (l, d) => Some (sg :: l, d) | None => None end
-  | _ :: _ => None
+    match file_table rest dsd' with Ok (l, d) => Ok (sg :: l, d) | Err e => Err e | Panic s => Panic s end
+  | FNoFrag :: _ => Panic "readMP4Segment: index out of range [0] with length 0"
+  | _ :: _ => Err "readMP4Segment"
   end.
 
 Lemma file_table_app a b dsd :
   file_table (a ++ b) dsd =
   match file_table a dsd with
-  | Some (la, d) => match file_table b d with Some (lb, d') => Some (la ++ lb, d') | None => None end
-  | None => None
+  | Ok (la, d) => match file_table b d with Ok (lb, d') => Ok (la ++ lb, d') | Err e => Err e | Panic s => Panic s end
+  | Err e => Err e
+  | Panic s => Panic s
   end.
 Proof.
   revert dsd. induction a as [|f a IH]; intros dsd; cbn [app file_table].
-  - destruct (file_table b dsd) as [[lb d']|]; reflexivity.
-  - destruct f as [| |o]; try reflexivity. destruct (read_mp4 dsd o 0) as [sg d1]. rewrite IH.
-    destruct (file_table a d1) as [[la d]|]; [|reflexivity].
-    destruct (file_table b d) as [[lb d']|]; reflexivity.
+  - destruct (file_table b dsd) as [[lb d']| |]; reflexivity.
+  - destruct f as [| | |o]; try reflexivity. destruct (read_mp4 dsd o 0) as [sg d1]. rewrite IH.
+    destruct (file_table a d1) as [[la d]| |]; try reflexivity.
+    destruct (file_table b d) as [[lb d']| |]; reflexivity.
 Qed.
 
 Lemma time_reads_spec tfile : forall n t d dsd acc,
   time_reads tfile n t d dsd acc =
   match file_table (map tfile (fst (visits_entry n t d))) dsd with
-  | Some (l, dsd') => Ok (acc ++ l, dsd', snd (visits_entry n t d))
-  | None => Err "readMP4Segment"
+  | Ok (l, dsd') => Ok (acc ++ l, dsd', snd (visits_entry n t d))
+  | Err e => Err e
+  | Panic s => Panic s
   end.
 Proof.
   induction n as [|n IH]; intros t d dsd acc; cbn [time_reads visits_entry].
   - cbn. now rewrite app_nil_r.
   - destruct (visits_entry n (u64 (t + d)) d) as [l t'] eqn:E. cbn [fst snd map file_table].
-    destruct (tfile t) as [| |o]; try reflexivity.
+    destruct (tfile t) as [| | |o]; try reflexivity.
     destruct (read_mp4 dsd o 0) as [sg d1]. rewrite IH, E. cbn [fst snd].
-    destruct (file_table (map tfile l) d1) as [[l2 d2]|]; [|reflexivity].
+    destruct (file_table (map tfile l) d1) as [[l2 d2]| |]; try reflexivity.
     now rewrite <- app_assoc.
 Qed.
 
 Lemma time_loop_spec tfile : forall es t dsd acc,
   time_loop tfile es t dsd acc =
   match file_table (map tfile (visits es t)) dsd with
-  | Some (l, dsd') => Ok (acc ++ l, dsd')
-  | None => Err "readMP4Segment"
+  | Ok (l, dsd') => Ok (acc ++ l, dsd')
+  | Err e => Err e
+  | Panic s => Panic s
   end.
 Proof.
   induction es as [|e es IH]; intros t dsd acc; cbn [time_loop visits].
@@ -235,8 +239,8 @@ Proof.
   - rewrite time_reads_spec.
     destruct (visits_entry (Datatypes.S (Z.to_nat (e_r e))) (match e_t e with Some x => x | None => t end) (e_d e)) as [l t'] eqn:E.
     cbn [fst snd]. rewrite map_app, file_table_app.
-    destruct (file_table (map tfile l) dsd) as [[l1 d1]|]; cbn [bind]; [|reflexivity].
-    rewrite IH. destruct (file_table (map tfile (visits es t')) d1) as [[l2 d2]|]; [|reflexivity].
+    destruct (file_table (map tfile l) dsd) as [[l1 d1]| |]; cbn [bind]; try reflexivity.
+    rewrite IH. destruct (file_table (map tfile (visits es t')) d1) as [[l2 d2]| |]; try reflexivity.
     now rewrite <- app_assoc.
 Qed.
 
@@ -244,10 +248,10 @@ Qed.
     adjusted and nothing is checked. *)
 Lemma time_table_contig_iff tfile es dsd segs dsd' :
   time_loop tfile es 0 dsd [] = Ok (segs, dsd') ->
-  exists rows, file_table (map tfile (visits es 0)) dsd = Some (rows, dsd') /\ segs = rows /\
+  exists rows, file_table (map tfile (visits es 0)) dsd = Ok (rows, dsd') /\ segs = rows /\
                (ccontig segs <-> ccontig rows).
 Proof.
-  rewrite time_loop_spec. destruct (file_table (map tfile (visits es 0)) dsd) as [[rows d]|]; [|discriminate].
+  rewrite time_loop_spec. destruct (file_table (map tfile (visits es 0)) dsd) as [[rows d]| |]; try discriminate.
   cbn [app]. intros H. inversion H; subst. exists segs. repeat split; auto.
 Qed.
 
